@@ -112,6 +112,13 @@ def protect {K H : Type} (A : Aead K) (P : Hp H) (k : K) (hk : H) (t : TxPkt) : 
         let n := (first &&& 3).toNat + 1                     -- masking: pn length bits *before* masking
         .ok (first' :: (t.hdrRest ++ lenField A.tagLen t) ++ xorPn n m.tail pnb ++ ct) (payloadOffset A.tagLen t)
 
+/-- `PadTo20` (`Package::dump` on the writer): nothing for an empty packet, else zero padding up to
+`payload_len + tag_len = 20`. -/
+def padTo20 (tagLen pnLen : Nat) (body : Bytes) : Bytes :=
+  if body.length = 0 then body
+  else if pnLen + body.length + tagLen < 20 then body ++ List.replicate (20 - (pnLen + body.length + tagLen)) 0
+  else body
+
 /-! ### Receiver -/
 
 /-- the buffer as `remove_protection_of_*` splits it: `pre_data[0]`, rest of `pre_data`, `max_pn_buf`, the rest -/
@@ -191,6 +198,10 @@ def OneRtt.update {K H : Type} (c : RxCfg K H) (s : OneRtt K) : OneRtt K :=
 def OneRtt.getRemote {K H : Type} (c : RxCfg K H) (s : OneRtt K) (kp : Bool) : OneRtt K × Option K :=
   let s' := if kp ≠ s.cur ∧ (s.remote kp).isNone then s.update c else s
   (s', s'.remote kp)
+
+/-- `OneRttPacketKeys::phase_out`: `self.remote[(!self.cur_phase).as_index()].take()`. -/
+def OneRtt.phaseOut {K : Type} (s : OneRtt K) : OneRtt K :=
+  if s.cur then { s with remote0 := none } else { s with remote1 := none }
 
 /-- which packet key the receiver uses -/
 def rxKey {K H : Type} (c : RxCfg K H) (s : OneRtt K) (ty : PType) (kp : Bool) : OneRtt K × Option K :=
